@@ -152,8 +152,20 @@ def _gen_case(res, case):
             c1 = estimate_cn(g, prof, s1.coverage, "any")
             ck = estimate_cn(g, prof, sk.coverage, "any")
             sig = lambda cs: sorted((tuple(sorted(c.solution.items())), round(c.score, 6)) for c in cs)
+            # the realigner's support for catalogued indels should scale with the reads; when it does not (an
+            # indel found at one depth and not at the other) candidate structures are filtered differently
+            moved = []
+            for key in set(s1._indel_sites) | set(sk._indel_sites):
+                o1, n1 = s1._indel_sites.get(key, [0, 0])
+                ok_, nk = sk._indel_sites.get(key, [0, 0])
+                f1 = n1 / (o1 + n1) if (o1 + n1) else 0.0
+                fk = nk / (ok_ + nk) if (ok_ + nk) else 0.0
+                if (n1 > 0) != (nk > 0) or abs(f1 - fk) > 0.1:
+                    moved.append(f"{key[0] + 1}.{key[1]}: {[o1, n1]} -> {[ok_, nk]}")
             res.check("structure_depth_independent", sig(c1) == sig(ck),
-                      "reported gene structure depends on sequencing depth", base=sig(c1), duplicated=sig(ck), **desc)
+                      "reported gene structure depends on sequencing depth",
+                      mech="indel-support-depth-dependent" if (sig(c1) != sig(ck) and moved) else None,
+                      base=sig(c1), duplicated=sig(ck), indel_support_not_proportional=moved, k=k, **desc)
         except AldyException as e:
             res.count("cn_rejected_low_depth")
     # 5. no reads in the neutral region -> rejected
